@@ -28,7 +28,7 @@ use vkit::acct::{Backend, Dev};
 use vkit::pool::{self, PoolOpts};
 use vkit::run::{push_sample, Args, Run, Tier};
 use vkit::world::{
-    all_logs, make_template, start_server, Device, ServerProc, Template,
+    all_logs, make_template, start_server, status_view, Device, ServerProc, Template,
 };
 use vkit::{clock, fsutil};
 
@@ -80,23 +80,29 @@ struct Item {
 }
 
 const HIST_LEN: usize = 4;
+const MAX_J: usize = 8;
+/// The harness events appended to every log: the first and the third are
+/// byte-identical (same commit hash at two positions of the log).
+const DUP: [usize; HIST_LEN] = [0, 1, 0, 2];
 
 fn items(tier: Tier) -> Vec<Item> {
     let mut v = vec![];
-    let dbs: Vec<bool> = match tier {
-        Tier::Quick => vec![false],
-        Tier::Thorough => vec![false, true],
-    };
-    for db in dbs {
+    // quick: the sqlite server only for the rewind requests
+    for db in [false, true] {
         for l in LOGS {
             for cp in [Cp::Head, Cp::Stale, Cp::Diverged, Cp::Default, Cp::ForgedRoot] {
+                if db && tier == Tier::Quick {
+                    continue;
+                }
                 v.push(Item { log: l, case: Case::Patch { cp: cp.clone() }, server_db: db });
                 v.push(Item { log: l, case: Case::SyncDiff { cp }, server_db: db });
             }
-            for j in 0..HIST_LEN {
+            // j counts from the end of the log: the rewind target is index
+            // n-1-j (items beyond the log's length are skipped and counted)
+            for j in 0..MAX_J {
                 v.push(Item { log: l, case: Case::Rewind { j, good: true }, server_db: db });
                 v.push(Item { log: l, case: Case::Rewind { j, good: false }, server_db: db });
-                if j + 1 < HIST_LEN {
+                if j >= 1 {
                     v.push(Item { log: l, case: Case::RewindDropping { j }, server_db: db });
                 }
             }
@@ -128,6 +134,7 @@ fn log_name(l: LogT, t: &Template) -> String {
 
 /// k-th harmless, distinct event for a log type.
 async fn mk_event(l: LogT, t: &Template, k: usize) -> EventRecord {
+    let k = if k < HIST_LEN { DUP[k] } else { k };
     let folder: VaultId = t.default_folder.parse().unwrap();
     match l {
         LogT::Folder | LogT::Identity => EventRecord::encode_event(
@@ -234,6 +241,7 @@ async fn run_item(t: &Template, it: &Item, work: &Path) -> Value {
         let client = device.bridge.client().clone();
         let name = log_name(it.log, t);
         let before = server_logs(&server, &account_id).await?;
+        let status_before = status_view(&server.sync_status(&account_id).await?);
         let s = before.get(&name).cloned().unwrap_or_default();
         let n = s.len();
         if n < HIST_LEN {
@@ -281,18 +289,30 @@ async fn run_item(t: &Template, it: &Item, work: &Path) -> Value {
                 expected_log = e;
             }
             Case::Rewind { j, good } => {
-                let base = &s[..=*j];
+                if *j >= n {
+                    device.close().await;
+                    server.stop().await;
+                    return Ok(json!({"skipped": true}));
+                }
+                let idx = n - 1 - *j;
+                let base = &s[..=idx];
+                // the commit hash names the last position that carries it:
+                // a target whose hash occurs again later is ambiguous
+                let ambiguous = s[idx + 1..].iter().any(|r| r.commit() == s[idx].commit());
                 let proof = if *good { tree_of(base).head().unwrap() } else { mk_proof(&Cp::ForgedRoot, base) };
-                expect_success = *good;
-                request_desc = format!("patch(rewind to index {} of {}, removing {} records, proof {}, patch = removed records + one new event)", j, n, n - 1 - j, if *good { "matching" } else { "wrong" });
-                let mut patch: Vec<EventRecord> = s[*j + 1..].to_vec();
+                request_desc = format!("patch(rewind to index {} of {}{}, removing {} records, proof {}, patch = removed records + one new event)", idx, n, if ambiguous { " (a commit that occurs again later)" } else { "" }, n - 1 - idx, if *good { "matching" } else { "wrong" });
+                let mut patch: Vec<EventRecord> = s[idx + 1..].to_vec();
                 patch.push(x.clone());
-                let r = client.patch(PatchRequest { log_type: log_type(it.log, t), commit: Some(CommitHash(s[*j].commit().0)), proof, patch: patch.clone() }).await;
+                let r = client.patch(PatchRequest { log_type: log_type(it.log, t), commit: Some(CommitHash(s[idx].commit().0)), proof, patch: patch.clone() }).await;
+                let ok = matches!(&r, Ok(r) if matches!(r.checked_patch, CheckedPatch::Success(_)));
                 response = match r {
                     Ok(r) => Ok(match r.checked_patch { CheckedPatch::Success(_) => "Success".into(), CheckedPatch::Conflict { .. } => "Conflict".into() }),
                     Err(e) => Err(e.to_string()),
                 };
-                expected_log = if *good {
+                // ambiguous target with a matching proof: either answer,
+                // the log must be consistent with it
+                expect_success = if *good && ambiguous { ok } else { *good };
+                expected_log = if expect_success {
                     let mut e = base.to_vec();
                     e.extend(patch);
                     e
@@ -301,10 +321,16 @@ async fn run_item(t: &Template, it: &Item, work: &Path) -> Value {
                 };
             }
             Case::RewindDropping { j } => {
-                let base = &s[..=*j];
+                if *j >= n {
+                    device.close().await;
+                    server.stop().await;
+                    return Ok(json!({"skipped": true}));
+                }
+                let idx = n - 1 - *j;
+                let base = &s[..=idx];
                 let proof = tree_of(base).head().unwrap();
-                request_desc = format!("patch(rewind to index {} of {}, removing {} records that the patch does not carry)", j, n, n - 1 - j);
-                let r = client.patch(PatchRequest { log_type: log_type(it.log, t), commit: Some(CommitHash(s[*j].commit().0)), proof, patch: vec![x.clone()] }).await;
+                request_desc = format!("patch(rewind to index {} of {}, removing {} records that the patch does not carry)", idx, n, n - 1 - idx);
+                let r = client.patch(PatchRequest { log_type: log_type(it.log, t), commit: Some(CommitHash(s[idx].commit().0)), proof, patch: vec![x.clone()] }).await;
                 let ok = matches!(&r, Ok(r) if matches!(r.checked_patch, CheckedPatch::Success(_)));
                 response = match r {
                     Ok(r) => Ok(match r.checked_patch { CheckedPatch::Success(_) => "Success".into(), CheckedPatch::Conflict { .. } => "Conflict".into() }),
@@ -372,7 +398,7 @@ async fn run_item(t: &Template, it: &Item, work: &Path) -> Value {
         let casek = match &it.case {
             Case::Patch { cp } => format!("patch_{:?}", cp).to_lowercase(),
             Case::Rewind { j, good } => {
-                let removed = n - 1 - j;
+                let removed = *j;
                 format!("rewind_removing_{}_{}", if removed >= 2 { "several" } else if removed == 1 { "one" } else { "none" }, if *good { "good_proof" } else { "wrong_proof" })
             }
             Case::RewindAbsent => "rewind_absent".into(),
@@ -421,6 +447,25 @@ async fn run_item(t: &Template, it: &Item, work: &Path) -> Value {
                 if !same(&g, v) {
                     fails.push(json!({"sig": format!("server:{}:other_log_changed:{}", casek, lname), "what": format!("{} changed log {}", request_desc, k)}));
                 }
+            }
+        }
+        // a refused request changes nothing - also not the commit trees the
+        // server holds in memory: the status it reports is the one before,
+        // and an honest patch on the true head is accepted afterwards
+        if !expect_success && fails.is_empty() {
+            let status_after = status_view(&server.sync_status(&account_id).await?);
+            if status_after != status_before {
+                fails.push(json!({"sig": format!("server:{}:refused_but_status_changed:{}", casek, lname), "what": format!("after the refused {} the server reports a different sync status (in-memory commit trees changed) although the stored records are the same", request_desc)}));
+            }
+            let y = mk_event(it.log, t, 101).await;
+            let r = client.patch(PatchRequest { log_type: log_type(it.log, t), commit: None, proof: tree_of(&s).head().unwrap(), patch: vec![y.clone()] }).await;
+            let ok = matches!(&r, Ok(r) if matches!(r.checked_patch, CheckedPatch::Success(_)));
+            let after2 = server_logs(&server, &account_id).await?;
+            let got2 = after2.get(&name).cloned().unwrap_or_default();
+            let mut want2 = s.clone();
+            want2.push(y);
+            if !ok || !same(&got2, &want2) {
+                fails.push(json!({"sig": format!("server:{}:honest_patch_refused_after_refusal:{}", casek, lname), "what": format!("after the refused {} a patch on the true head of the log is not accepted ({}) or not appended", request_desc, match &r { Ok(_) => "Conflict".to_string(), Err(e) => e.to_string() })}));
             }
         }
         device.close().await;
@@ -495,6 +540,7 @@ fn main() {
     let mut samples = vec![];
     let mut accepted = 0u64;
     let mut refused = 0u64;
+    let mut skipped = 0u64;
     let mut errors: BTreeMap<String, u64> = BTreeMap::new();
     for (i, r) in res.into_iter().enumerate() {
         match r {
@@ -503,6 +549,10 @@ fn main() {
                 if let Some(e) = v.get("error").and_then(|e| e.as_str()) {
                     *errors.entry(e.chars().take(100).collect()).or_default() += 1;
                     run.machinery(format!("item {:?}: {}", its[i], e));
+                    continue;
+                }
+                if v["skipped"].as_bool() == Some(true) {
+                    skipped += 1;
                     continue;
                 }
                 if v["expect_success"].as_bool() == Some(true) {
@@ -523,13 +573,15 @@ fn main() {
         run.machinery("vacuous: no accepted or no refused request");
     }
     let mut cov = Map::new();
-    cov.insert("states".into(), json!(its.len()));
-    cov.insert("transitions".into(), json!(its.len()));
-    cov.insert("traces_validated_against_impl".into(), json!(its.len()));
+    let ran = its.len() as u64 - skipped;
+    cov.insert("states".into(), json!(ran));
+    cov.insert("transitions".into(), json!(ran));
+    cov.insert("traces_validated_against_impl".into(), json!(ran));
+    cov.insert("rewind_targets_beyond_the_log_skipped".into(), json!(skipped));
     cov.insert("samples".into(), json!(samples));
     cov.insert("requests_expected_to_be_accepted".into(), json!(accepted));
     cov.insert("requests_expected_to_be_refused".into(), json!(refused));
     cov.insert("exhaustive".into(), json!(true));
-    cov.insert("rule".into(), json!(format!("log type in {{folder, account, device, files, identity}} x checkpoint in {{head, stale, diverged, default(init), forged root}} x {{PATCH events, PATCH account sync diff}} + rewind to every index of a {}-record history with matching / wrong proof + rewind to an absent commit; each as one signed HTTP request to a fresh copy of the prepared server", HIST_LEN)));
+    cov.insert("rule".into(), json!(format!("log type in {{folder, account, device, files, identity}} x checkpoint in {{head, stale, diverged, default(init), forged root}} x {{PATCH events, PATCH account sync diff}} + rewind to every index of the log (template records + {} harness events of which the first and the third are byte-identical, so that one commit hash occurs twice) with matching / wrong proof and with a patch that drops the removed records + rewind to an absent commit; each as one signed HTTP request to a fresh copy of the prepared server; after every refused request the status the server reports (its in-memory commit trees) must be unchanged and an honest patch on the true head must be accepted", HIST_LEN)));
     std::process::exit(run.finish(cov));
 }
